@@ -55,6 +55,38 @@ uint64_t AsyncSim::ha_sent_seq(const HRec &r, size_t ei, uint64_t after, uint64_
 	return best;
 }
 
+// every wire request at endpoint ei that can stand for this request (same content) and was sent after `after`: (sub-request id, seq)
+std::vector<std::pair<uint64_t, uint64_t>> AsyncSim::ha_sent_all(const HRec &r, size_t ei, uint64_t after) {
+	std::vector<std::pair<uint64_t, uint64_t>> out;
+	SimEndpoint &e = eps[ei];
+	auto is_mine = [&](const ReqInfo &ri) {
+		if (!ri.has_req) return false;
+		if (!svc_ext) return ri.has_hash && ri.hash == r.hash;
+		return ri.has_agg_time && ri.agg_time == r.agg_time && ri.has_pub_time == r.has_pub && (!r.has_pub || ri.pub_time == r.pub_time);
+	};
+	if (!e.http) {
+		for (auto &cp : N.conns) {
+			Conn &c = *cp;
+			if (c.ep != e.net_ep) continue;
+			size_t off = 0;
+			while (off < c.c2s.size()) {
+				size_t fl = frame_len(c.c2s, off);
+				if (fl == 0 || off + fl > c.c2s.size()) break;
+				ReqInfo ri;
+				if (parse_request(c.c2s.substr(off, fl), e.cfg.key, ri) && is_mine(ri)) { uint64_t s = c.seq_when_sent(off + fl); if (s > after) out.push_back({ri.id, s}); }
+				off += fl;
+			}
+		}
+	} else {
+		for (auto &xp : C.xfers) {
+			if (xp->ep != e.net_ep || !xp->sent_seq) continue;
+			ReqInfo ri;
+			if (parse_request(xp->req_body, e.cfg.key, ri) && is_mine(ri) && xp->sent_seq > after) out.push_back({ri.id, xp->sent_seq});
+		}
+	}
+	return out;
+}
+
 static bool frame_answers(const Frame &f, const HRec &r, bool ext) {
 	if (!f.clean_resp) return false;
 	if (!ext) return f.info.has_chains && f.info.first_input == r.hash;
@@ -161,15 +193,14 @@ void AsyncSim::ha_on_returned(KSI_AsyncHandle *h, size_t waiting) {
 	if (state == KSI_ASYNC_STATE_RESPONSE_RECEIVED) {
 		std::vector<const Frame *> good;
 		for (size_t ei = 0; ei < eps.size(); ei++) {
-			uint64_t sid = 0;
-			uint64_t sent = ha_sent_seq(*rec, ei, a.accepted_seq, &sid);
-			if (!sent) continue;
-			// the sub-service's notion of a valid reply: authentic, status 0, bearing the sub-request's id (C13)
-			for (auto &f : frames) if (f.ep == (int)ei && f.clean_resp && f.info.id == sid && (!svc_ext || frame_answers(f, *rec, true)) && f.arrive_seq > sent && f.arrive_seq <= K.seq) good.push_back(&f);
+			// the sub-service's notion of a valid reply: authentic, status 0, bearing the id of a sub-request that stands for this
+			// request (C13); a sub-request of an earlier round of a re-added request may still have been in the send queue
+			for (auto &ss : ha_sent_all(*rec, ei, a.accepted_seq))
+				for (auto &f : frames) if (f.ep == (int)ei && f.clean_resp && f.info.id == ss.first && (!svc_ext || frame_answers(f, *rec, true)) && f.arrive_seq > ss.second && f.arrive_seq <= K.seq) good.push_back(&f);
 		}
 		if (good.empty()) {
 			bool prem = false;
-			for (size_t ei = 0; ei < eps.size(); ei++) { uint64_t sid = 0; if (ha_sent_seq(*rec, ei, a.accepted_seq, &sid)) for (auto &f : frames) if (f.ep == (int)ei && f.clean_resp && f.info.id == sid) prem = true; }
+			for (size_t ei = 0; ei < eps.size(); ei++) for (auto &ss : ha_sent_all(*rec, ei, a.accepted_seq)) for (auto &f : frames) if (f.ep == (int)ei && f.clean_resp && f.info.id == ss.first) prem = true;
 			K.fail("C15", "response-without-valid-reply", prem ? "reply-arrived-before-the-request-was-sent-but-was-matched-after" : "no-endpoint-replied",
 			       "request #%d completed with a response, but no endpoint produced an authentic status-0 reply for it after receiving it", rec->idx);
 			return;
@@ -243,6 +274,15 @@ void AsyncSim::ha_final_checks() {
 				if (ei < r->sub_full.size() && r->sub_full[ei]) continue;
 				if (r->att.size() > 1) continue;
 				if (ha_sent_seq(*r, ei, 0)) continue;
+				// an endpoint whose send queue (round limit) had not reached the request when another endpoint's reply completed it
+				// rightly drops it; it is a violation only if the endpoint sent a later submission while this one was outstanding
+				bool skipped = false;
+				for (auto &o : recs) {
+					if (o.get() == r.get() || o->att.empty() || o->att.front().accepted_seq <= a.accepted_seq) continue;
+					uint64_t s2 = ha_sent_seq(*o, ei, 0);
+					if (s2 && a.returned && s2 < a.returned_seq) skipped = true;
+				}
+				if (!skipped) { K.count("probe.ha_not_forwarded_but_not_skipped"); continue; }
 				std::string why;
 				Attempt w = a; // window until now
 				if (ha_endpoint_clean(*r, w, ei, why) && a.returned && a.state == KSI_ASYNC_STATE_RESPONSE_RECEIVED)
